@@ -58,7 +58,7 @@ type Step struct {
 }
 
 var editOps = []string{"addGlobal", "addFunc", "addBlock", "appendInst", "appendInst", "appendInst", "insertInst", "insertInst", "removeInst", "replaceInst", "replaceInst", "bulkAppend", "replaceTerm", "rename", "renameGlobal", "renameBlock", "addMetadata", "setAddrSpace"}
-var observeOps = []string{"obsString", "obsString", "obsWriteTo", "obsFunc", "obsBlock", "obsInst", "obsType", "obsIdent", "obsOperands", "obsSuccs"}
+var observeOps = []string{"obsString", "obsString", "obsWriteTo", "obsFailingWrite", "obsPanickingPrint", "obsFunc", "obsBlock", "obsInst", "obsType", "obsIdent", "obsOperands", "obsSuccs"}
 
 // world is the state built by replaying a history.
 type world struct {
@@ -444,6 +444,21 @@ func (w *world) apply(s Step, observe bool) (printed string, isPrint bool) {
 		return m.String(), true
 	case "obsWriteTo":
 		m.WriteTo(io.Discard)
+	case "obsFailingWrite":
+		// a print that fails part-way: the writer accepts s.D*13 bytes and then returns an error with the
+		// partial count (every second time it takes nothing of the failing chunk)
+		m.WriteTo(&failingWriter{limit: s.D * 13, partial: s.C%2 == 0})
+	case "obsPanickingPrint":
+		// a print of a state that cannot be printed (a block without terminator), recovered by the caller,
+		// who then puts the terminator back: a failed observation, and still only an observation
+		if f := w.fn(s.A); f != nil {
+			b := f.Blocks[pick(len(f.Blocks), s.B)]
+			term := b.Term
+			b.Term = nil
+			lx.Guard(func() { _ = m.String() })
+			lx.Guard(func() { _ = f.LLString() })
+			b.Term = term
+		}
 	case "obsFunc":
 		if len(m.Funcs) > 0 {
 			_ = m.Funcs[pick(len(m.Funcs), s.A)].LLString()
@@ -480,6 +495,32 @@ func (w *world) apply(s Step, observe bool) (printed string, isPrint bool) {
 	}
 	return "", false
 }
+
+// failingWriter accepts limit bytes and fails from then on.
+type failingWriter struct {
+	limit   int
+	partial bool
+	failed  bool
+}
+
+func (w *failingWriter) Write(p []byte) (int, error) {
+	if w.failed {
+		return 0, errWriter
+	}
+	if len(p) <= w.limit {
+		w.limit -= len(p)
+		return len(p), nil
+	}
+	w.failed = true
+	if w.partial {
+		n := w.limit
+		w.limit = 0
+		return n, errWriter
+	}
+	return 0, errWriter
+}
+
+var errWriter = fmt.Errorf("writer failed")
 
 func isObserver(op string) bool { return len(op) > 3 && op[:3] == "obs" }
 
@@ -591,7 +632,7 @@ func shiftsNumbering(steps []Step) bool {
 
 func TestHistories(t *testing.T) {
 	const test = "Histories"
-	hx.Rule(test, "histories of 5..62 steps over the public API drawn by rapid and replayed on fresh modules: add global/function (named or unnamed, named or unnamed parameters), add block, append, bulk-append (12..45 at once), insert and replace-in-place instructions (add, mul, sub, icmp, alloca, load, store, call of void and non-void functions, select) with operands from the values that exist, remove unused instructions, replace terminators (ret, br, condbr, unreachable), rename values, blocks and globals (to a name or to unnamed); observers (String, WriteTo, Func/Block/instruction LLString, Type, Ident, Operands, Succs) at about a third of the positions. Every state is printable (blocks are created with a terminator). Oracle: replay with observers == replay without (final String()), String() twice identical, every String() observed mid-history equals printing a fresh observer-free replay of the same prefix, and observers never introduce a panic. Non-trivial = an observer followed by an edit that shifts numbering")
+	hx.Rule(test, "histories of 5..62 steps over the public API drawn by rapid and replayed on fresh modules: add global/function (named or unnamed, named or unnamed parameters), add block, append, bulk-append (12..45 at once), insert and replace-in-place instructions (add, mul, sub, icmp, alloca, load, store, call of void and non-void functions, select) with operands from the values that exist, remove unused instructions, replace terminators (ret, br, condbr, unreachable), rename values, blocks and globals (to a name or to unnamed); observers (String, WriteTo, WriteTo into a writer that fails after k bytes, a recovered String() of a state that cannot be printed — a block whose terminator is taken away and put back —, Func/Block/instruction LLString, Type, Ident, Operands, Succs) at about a third of the positions. Every state is printable (blocks are created with a terminator). Oracle: replay with observers == replay without (final String()), String() twice identical, every String() observed mid-history equals printing a fresh observer-free replay of the same prefix, and observers never introduce a panic. Non-trivial = an observer followed by an edit that shifts numbering")
 	hx.Check(t, test, hx.N(1500, 40000), func(rt *rapid.T) {
 		steps := genHistory(rt)
 		hx.Eval(1)
